@@ -75,4 +75,82 @@ theorem tie_SetStr_other (p : Map) (k k' v d : Bytes) (h : k' ≠ k) :
   have h' : ¬ (k = k') := fun e => h e.symm
   simp [parameters_StrDefault, parameters_SetStr, get_set, h']
 
+/-! ### `String()` and `ParseParameters` themselves (loops included) -/
+
+/-- **`Parameters.String`**: one item per entry (`k` for an empty value, `k=v` otherwise), sorted, joined by commas -/
+theorem tie_String (m : Map) : print m = parameters_String m := by
+  unfold print parameters_String sortStrings joinStr
+  simp only [List.nil_append]
+  congr 2
+  apply List.map_congr_left
+  intro kv _
+  unfold renderItem
+  by_cases h : kv.2 = []
+  · simp [h]
+  · simp [h, sprintf, sprintfAux, equals]
+
+theorem take_drop_at_first (q : Nat → Bool) (p : Bytes) :
+    List.take (p.takeWhile q).length p = p.takeWhile q ∧
+    List.drop ((p.takeWhile q).length + 1) p = (p.dropWhile q).drop 1 := by
+  have h := List.takeWhile_append_dropWhile (p := q) (l := p)
+  constructor
+  · have := List.take_left' (l₁ := List.takeWhile q p) (l₂ := List.dropWhile q p) rfl
+    rw [h] at this; exact this
+  · have : List.drop ((List.takeWhile q p).length + 1) (List.takeWhile q p ++ List.dropWhile q p) = (List.dropWhile q p).drop 1 := by
+      rw [List.drop_append]
+      simp [Nat.add_sub_cancel_left]
+    rw [h] at this; exact this
+
+/-- one item of the comma-separated list, as the loop body of `ParseParameters` stores it -/
+theorem item_step (m : Map) (p : Bytes) :
+    (let i := indexStr p ([61] : Bytes)
+     if decide (i < 0) then set m p ([] : Bytes)
+     else set m (List.take (Int.toNat i) p) (List.drop (Int.toNat (i + (1 : Int))) p)) =
+    set m (parseItem p).1 (parseItem p).2 := by
+  unfold indexStr parseItem
+  by_cases h : p.contains equals = true
+  · have h' : p.contains 61 = true := h
+    obtain ⟨a, b⟩ := take_drop_at_first (· != equals) p
+    have e1 : Int.toNat (Int.ofNat (List.takeWhile (fun x => x != 61) p).length) = (List.takeWhile (· != equals) p).length := by
+      simp [equals]
+    have e2 : Int.toNat (Int.ofNat (List.takeWhile (fun x => x != 61) p).length + 1) = (List.takeWhile (· != equals) p).length + 1 := by
+      simp only [Int.ofNat_eq_natCast, equals]; omega
+    have hneg : ¬ (Int.ofNat (List.takeWhile (fun x => x != 61) p).length < 0) := by
+      simp only [Int.ofNat_eq_natCast]; omega
+    simp only [h, h', if_true, hneg, decide_false, Bool.false_eq_true, if_false, e1, e2, a, b]
+  · have h' : p.contains 61 = false := by simpa [equals] using h
+    have hm : ¬ (61 ∈ p) := by simpa using h'
+    have hm' : ¬ (equals ∈ p) := hm
+    simp [hm, hm']
+
+/-- **`ParseParameters`**: split at the commas; each item stored under the part before its first `=`
+    (the whole item, with the empty value, when it has none); later items overwrite earlier ones -/
+theorem tie_ParseParameters (s : Bytes) : parse s = parseParameters s := by
+  unfold parse ofList parseRaw parseParameters splitStr
+  simp only [List.foldl_map, comma]
+  congr 1
+  funext m p
+  exact (item_step m p).symm
+
+/-! ### the C19 theorems, restated on the translated code -/
+
+/-- parsing what `String()` printed gives the map back (non-empty map, keys free of `,` / `=`, values free of `,`) -/
+theorem C19_parse_print_translated (m : Map) (hn : (m.map (·.1)).Nodup) (hd : printDom m = true) (k : Bytes) :
+    get (parseParameters (parameters_String m)) k = get m k := by
+  rw [← tie_String, ← tie_ParseParameters]; exact C19_parse_print m hn hd k
+
+/-- for every string: parse ∘ print ∘ parse = parse -/
+theorem C19_parse_print_parse_translated (s k : Bytes) :
+    get (parseParameters (parameters_String (parseParameters s))) k = get (parseParameters s) k := by
+  rw [← tie_ParseParameters, ← tie_String, ← tie_ParseParameters]; exact C19_parse_print_parse s k
+
+/-- of duplicate keys the last wins -/
+theorem C19_last_wins_translated (a b k : Bytes) :
+    get (parseParameters (a ++ comma :: b)) k = (get (parseParameters b) k).or (get (parseParameters a) k) := by
+  simp only [← tie_ParseParameters]; exact C19_last_wins a b k
+
+/-- the output is deterministic: it does not depend on the order in which Go iterates the map -/
+theorem C19_print_deterministic_translated (m1 m2 : Map) (h : m1.Perm m2) : parameters_String m1 = parameters_String m2 := by
+  rw [← tie_String, ← tie_String]; exact C19_print_deterministic m1 m2 h
+
 end Pgs.C19
